@@ -130,10 +130,17 @@ func runConc(m map[string]string) string {
 		<-ready
 	}
 	var log []string
-	stepW := func(i int) bool { // returns false on panic
+	stepW := func(i int) bool { // returns false on panic or when the worker does not come back
 		w := ws[i]
 		w.resume <- struct{}{}
-		ev := <-w.parked
+		var ev string
+		select {
+		case ev = <-w.parked:
+		case <-time.After(2 * time.Second):
+			// blocked for good (only one goroutine runs at a time, so nobody can release it): a deadlock
+			log = append(log, fmt.Sprintf("%d:HANG", i))
+			return false
+		}
 		log = append(log, fmt.Sprintf("%d:%s", i, ev))
 		if ev != "K" {
 			w.left--
